@@ -64,6 +64,7 @@ type vfEnv struct {
 	curRecvT  int64                     // fake-clock ms at which ReceiveMessage returned the message being fed
 	pauser    *vfPauser                 // real-time pause (nil: none)
 	overlaps  int                       // slow dials that were still in progress at the sweep that selects their entry
+	slowCloseEnd int64                  // fake-clock ms at which the latest slow logger.Close() call returns
 	curSid   uint32                     // session id of the message the receive loop is feeding
 	lastNew  uint32                     // session id of the last logger.New (owner of the next socket)
 	socks    []*vfConn
@@ -208,12 +209,17 @@ func (e *vfEnv) CheckUDP(reqAddr string) error {
 // "hook" / "dial" record is logged when the call returns.
 //
 // udp.go holds the entry's connLock across DialFunc, and a goroutine blocked on a sync.Mutex is NOT durably
-// blocked for testing/synctest: once a sweep has selected the entry being dialed and waits for its connLock, the
-// bubble's clock cannot advance before the dial returns.  The entry's Last was stored when its datagram was
-// received (curRecvT; nothing refreshes it during the dial), so the first sweep that can select it is the first
-// tick T* with T* - curRecvT > timeout.  The sleep is therefore cut at T*; a dial that would last longer is then
-// kept in progress for a moment of REAL time (the sweeper woken at the same fake instant takes its snapshot and
-// calls CloseWithErr on the entry while the dial has not returned yet) and returns at fake time T*.
+// blocked for testing/synctest: while a sweep that selected the entry being dialed waits for its connLock, the
+// bubble's clock cannot advance, so the dial must not be asleep on the fake clock then.
+//  (1) Sweeps that start later.  The entry's Last was stored when its datagram was received (curRecvT; nothing
+//      refreshes it during the dial), so the first sweep that can select it is the first tick T* with
+//      T* - curRecvT > timeout.  The sleep is cut at T*; a dial that would last longer is then kept in progress
+//      for a moment of REAL time (the sweeper woken at the same fake instant takes its snapshot and calls
+//      CloseWithErr on the entry while the dial has not returned yet) and returns at fake time T*.
+//  (2) A sweep already in progress whose snapshot holds the entry: only possible for an entry that existed before
+//      this datagram (fragments only so far: some earlier datagram of the id with no Close event since), and only
+//      at a tick instant or while / right after a slow logger.Close (the one way a sweep spends fake time).
+//      Then the call does not sleep at all.
 func (e *vfEnv) slowBlock(ms int64) {
 	if ms <= 0 || e.timeoutMs <= 0 {
 		return
@@ -224,7 +230,29 @@ func (e *vfEnv) slowBlock(ms int64) {
 	tstar := ((e.curRecvT+e.timeoutMs)/iv + 1) * iv
 	sid := e.curSid
 	m0 := len(e.log)
+	fresh, cur := true, true
+	for i := len(e.log) - 1; i >= 0; i-- {
+		ev := e.log[i]
+		if ev.Sid != sid {
+			continue
+		}
+		if ev.K == "logclose" {
+			break
+		}
+		if ev.K == "recv" {
+			if cur {
+				cur = false // the datagram being fed
+				continue
+			}
+			fresh = false
+			break
+		}
+	}
+	sweeping := now%iv == 0 || now <= e.slowCloseEnd
 	e.mu.Unlock()
+	if !fresh && sweeping {
+		return
+	}
 	end, overlap := now+ms, false
 	if end >= tstar {
 		end, overlap = tstar, true
@@ -305,6 +333,7 @@ func (l vfLogger) Close(sessionID uint32, err error) {
 	if slow {
 		l.env.slowClose--
 		a = "slow"
+		l.env.slowCloseEnd = int64(time.Since(l.env.t0)/time.Millisecond) + 10
 	}
 	l.env.add(vfEv{K: "logclose", Sid: sessionID, Ok: err == nil, A: a})
 	l.env.mu.Unlock()
